@@ -90,36 +90,61 @@ type decoderFn func(prefix []byte) error
 
 // cutAll feeds every chosen strict prefix to dec; a nil error is a violation.
 func cutAll(c *wk.Ctx, stream string, i int, entry string, enc []byte, ks []int, dec decoderFn, detail map[string]interface{}) {
-	// sanity: the full encoding must be accepted, otherwise the case says nothing
-	var ferr error
-	pv, stack := wk.Try(func() { ferr = dec(enc) })
-	if pv != nil {
-		c.Viol(stream, i, "full=panic/"+entry+"/"+wk.PanicSite(stack), fmt.Sprintf("%s panicked on a valid encoding: %v", entry, pv), detail)
+	// sanity: the full encoding must be accepted, otherwise the case says nothing. In one case out of
+	// two the prefixes are tried FIRST and the complete encoding afterwards, so that the first thing
+	// the decoder ever sees of a type / signature is a truncated datum (a decoder may keep state from
+	// its first encounter with a type).
+	prefixesFirst := wk.Hash64("cut-order", stream, i)>>9&1 == 1
+	sanity := func() bool {
+		var ferr error
+		pv, stack := wk.Try(func() { ferr = dec(enc) })
+		if pv != nil {
+			c.Viol(stream, i, "full=panic/"+entry+"/"+wk.PanicSite(stack), fmt.Sprintf("%s panicked on a valid encoding: %v", entry, pv), detail)
+			return false
+		}
+		if ferr != nil {
+			// nothing can be said about the prefixes of an encoding the decoder does not accept in the first
+			// place; it also means that the harness's idea of the format and the decoder disagree (or that the
+			// decoder is broken for valid data, which C02 / C03 judge): visible as an inconclusive case
+			c.Count("full_encoding_rejected_"+entry, 1)
+			c.Inconclusive(stream, i, fmt.Sprintf("%s rejected the complete %d-byte encoding: %v", entry, len(enc), ferr))
+			return false
+		}
+		return true
+	}
+	if !prefixesFirst && !sanity() {
 		return
 	}
-	if ferr != nil {
-		// nothing can be said about the prefixes of an encoding the decoder does not accept in the first
-		// place; it also means that the harness's idea of the format and the decoder disagree (or that the
-		// decoder is broken for valid data, which C02 / C03 judge): visible as an inconclusive case
-		c.Count("full_encoding_rejected_"+entry, 1)
-		c.Inconclusive(stream, i, fmt.Sprintf("%s rejected the complete %d-byte encoding: %v", entry, len(enc), ferr))
-		return
-	}
+	type finding struct{ key, what string }
+	var found *finding
+	cut := -1
 	for _, k := range ks {
 		var err error
 		pv, stack := wk.Try(func() { err = dec(enc[:k]) })
 		c.Eval(1)
 		if pv != nil {
-			detail["cut"] = k
-			c.Viol(stream, i, "cut=panic/"+entry+"/"+wk.PanicSite(stack), fmt.Sprintf("%s panicked on a %d-byte prefix of a %d-byte encoding: %v", entry, k, len(enc), pv), detail)
-			return
+			cut = k
+			found = &finding{"cut=panic/" + entry + "/" + wk.PanicSite(stack), fmt.Sprintf("%s panicked on a %d-byte prefix of a %d-byte encoding: %v", entry, k, len(enc), pv)}
+			break
 		}
 		if err == nil {
-			detail["cut"] = k
-			detail["encoding"] = hx(enc, 128)
-			c.Viol(stream, i, "accepted/"+entry+"/"+cutClass(detail), fmt.Sprintf("%s accepted a %d-byte prefix of a %d-byte encoding", entry, k, len(enc)), detail)
+			cut = k
+			found = &finding{"accepted/" + entry + "/" + cutClass(detail), fmt.Sprintf("%s accepted a %d-byte prefix of a %d-byte encoding", entry, k, len(enc))}
+			break
+		}
+	}
+	if prefixesFirst {
+		c.Count("encodings_whose_prefixes_were_decoded_before_the_complete_encoding", 1)
+		if !sanity() {
 			return
 		}
+	}
+	if found != nil {
+		detail["cut"] = cut
+		detail["encoding"] = hx(enc, 128)
+		detail["prefixes_decoded_before_the_complete_encoding"] = prefixesFirst
+		c.Viol(stream, i, found.key, found.what, detail)
+		return
 	}
 	c.Nontrivial(wk.Hash64(stream, entry, detail["signature"], len(enc)))
 }
